@@ -619,7 +619,9 @@ func (sp *subProcess) NextAction(ctx context.Context, flow Flow) chan IAction {
 		// StartAll cease flow monitor
 		sender := sp.subTracer.RegisterSender()
 		tracer := sp.wr.tracer
-		go sp.ceaseFlowMonitor(tracer)(ctx, sender)
+		// the monitor watches the inner flows, so it listens on (and announces the end of the
+		// inner flow to) the inner tracer, which is where run waits for it
+		go sp.ceaseFlowMonitor(sp.subTracer)(ctx, sender)
 		go sp.run(ctx, tracer)
 	}
 
